@@ -32,7 +32,9 @@ TECH = 'deterministic simulation with fault injection (seeded search over scenar
 
 NOTE = ('trusted: the independent reference model sim/refmodel.py (bounded exhaustive enumeration), the stand-in MILP back end sim/milp_stub.py '
         '(cross-checked against real CBC in every batch, counters in evidence), PuLP modelling layer, CPython. Seams are reached by module-attribute '
-        'patching and an audit hook, no source hook in /repo.')
+        'patching and an audit hook, no source hook in /repo. Sampling, not proof: a seeded search finds what its scenario space contains '
+        '(DESIGN.md 17 lists ten seeded defects it does not reach and why). Real CBC answers are validated against the program before they are '
+        'believed (DESIGN.md note N2). Process history inside a chunk of seed indices is part of the schedule and of the replay file.')
 
 NOT_APPLICABLE = [
   {"property_id": "C07", "reason": "brute-force statistics are a pure function of the instance file and -pc: no back end, clock, RNG, I/O fault or call history for a simulator to own (DESIGN.md 5/C07); its shadow runs inside C09 and C18"},
